@@ -6,6 +6,7 @@
 -/
 import ScoresVerif.Model.Arr
 import ScoresVerif.Lemmas.NanMean
+import ScoresVerif.Lemmas.C03Nan
 import Mathlib.Tactic.FieldSimp
 import Mathlib.Tactic.Ring
 
@@ -134,5 +135,146 @@ theorem ratio_invariant (c a b : Rat) (hc : 0 < c) :
 /-! Non-vacuity: three cases, one missing -/
 example : nanmean (weighted (fun t => t.2.1 + t.2.2) [(some 2, 1, 3), (none, 5, 5), (some 4, 2, 0)]) = fin 8 := by
   decide +kernel
+
+/-! ## NaN weights
+
+The theorems above take finite weights.  Below the weight of a case may itself be NaN (`none`), as in
+`apply_weights(values, weights=w)` with gaps in `w`: `values * w` is NaN there and the NaN-skipping mean drops the case. -/
+section NanWeights
+open SV.C03Nan
+
+/-- weighted per-case scores, the weight of case `t` being any `Fl` value `g t` (NaN allowed) -/
+def weightedF (g : CaseN → Fl) (l : List CaseN) : List Fl :=
+  l.map fun t => Fl.mul (ofOpt t.1) (g t)
+
+theorem weightedF_ofOpt (g : CaseN → Option Rat) (l : List CaseN) :
+    weightedF (fun t => ofOpt (g t)) l = (l.map fun t => omul t.1 (g t)).map ofOpt := by
+  unfold weightedF
+  rw [List.map_map]
+  apply List.map_congr_left
+  intro t _
+  exact mul_ofOpt _ _
+
+/-- With NaN weights the weighted aggregate is Σ s·w / n over exactly the cases in which BOTH the score and the
+    weight are present (`both g l`); n counts those cases only; no such case gives NaN.  A NaN weight therefore
+    removes its case from the numerator and from the denominator. -/
+theorem nanmean_nan_weights (g : CaseN → Option Rat) (l : List CaseN) :
+    nanmean (weightedF (fun t => ofOpt (g t)) l) =
+      if both g l = [] then nan
+      else fin (((both g l).map fun p => p.1 * p.2).sum / (both g l).length) := by
+  rw [weightedF_ofOpt, nanmean_ofOpt, present_omul]
+  simp only [List.map_eq_nil_iff, List.length_map]
+
+/-- the case has a score and a weight -/
+def bothPresent (g : CaseN → Option Rat) (t : CaseN) : Bool := t.1.isSome && (g t).isSome
+
+/-- the same fact without closed forms: the NaN-skipping mean of the weighted scores is the PLAIN mean of the
+    weighted scores of the sub-list of cases having both a score and a weight -/
+theorem nanmean_nan_weights_filter (g : CaseN → Option Rat) (l : List CaseN) :
+    nanmean (weightedF (fun t => ofOpt (g t)) l) =
+      strictmean (weightedF (fun t => ofOpt (g t)) (l.filter (bothPresent g))) := by
+  have hp : (fun t : CaseN => (Fl.mul (ofOpt t.1) (ofOpt (g t))).notNan) = bothPresent g := by
+    funext t
+    unfold bothPresent
+    cases t.1 <;> cases g t <;> simp
+  unfold weightedF
+  rw [nanmean_filter_notNan_map, hp]
+  apply nanmean_eq_strictmean_of_forall
+  intro x hx
+  obtain ⟨t, ht, rfl⟩ := List.mem_map.mp hx
+  have := (List.mem_filter.mp ht).2
+  rw [← hp] at this
+  exact this
+
+/-- a case whose weight is NaN contributes nothing at all — whatever its score (any `Fl` weights elsewhere) -/
+theorem nanmean_nan_weight_cons (g : CaseN → Fl) (t : CaseN) (l : List CaseN) (h : g t = nan) :
+    nanmean (weightedF g (t :: l)) = nanmean (weightedF g l) := by
+  have e : valid (weightedF g (t :: l)) = valid (weightedF g l) := by
+    simp [weightedF, h, valid]
+  unfold nanmean
+  rw [e]
+
+example : (fun t : CaseN => ofOpt t.2.1) (some 5, none, some 1) = nan := rfl
+
+/-- contrast: a case whose weight is ZERO (and whose score is present) adds nothing to the numerator but still
+    counts in the denominator -/
+theorem nanmean_zero_weight_cons (g : CaseN → Option Rat) (s : Rat) (w1 w2 : Option Rat) (l : List CaseN)
+    (h : g (some s, w1, w2) = some 0) :
+    nanmean (weightedF (fun t => ofOpt (g t)) ((some s, w1, w2) :: l)) =
+      fin (((both g l).map fun p => p.1 * p.2).sum / ((both g l).length + 1)) := by
+  rw [nanmean_nan_weights]
+  have e : both g ((some s, w1, w2) :: l) = (s, 0) :: both g l := by
+    simp [both, h]
+  simp [e]
+
+/-- zero weight and NaN weight differ: scores 5 and 3, second weight 1; first weight 0 gives 3/2, NaN gives 3 -/
+example : nanmean (weightedF (fun t => ofOpt t.2.1) [(some 5, some 0, none), (some 3, some 1, none)]) = fin (3/2) ∧
+    nanmean (weightedF (fun t => ofOpt t.2.1) [(some 5, none, none), (some 3, some 1, none)]) = fin 3 := by
+  decide +kernel
+
+example : (fun t : CaseN => t.2.1) (some 5, some 0, none) = some 0 := rfl
+
+/-- additivity in the weights for two weight vectors with the SAME NaN mask (scores may have their own NaNs) -/
+theorem nanmean_add_nan_weights (l : List CaseN) (hm : ∀ t ∈ l, t.2.1.isSome = t.2.2.isSome) :
+    nanmean (weightedF (fun t => Fl.add (ofOpt t.2.1) (ofOpt t.2.2)) l) =
+      Fl.add (nanmean (weightedF (fun t => ofOpt t.2.1) l)) (nanmean (weightedF (fun t => ofOpt t.2.2) l)) := by
+  simp only [add_ofOpt, nanmean_nan_weights]
+  have e1 := both_oadd_length_left l hm
+  have e2 := both_oadd_length_right l hm
+  by_cases h : both (fun t => oadd t.2.1 t.2.2) l = []
+  · have h1 : both (fun t => t.2.1) l = [] := by
+      rw [← List.length_eq_zero_iff, ← e1, h]; rfl
+    have h2 : both (fun t => t.2.2) l = [] := by
+      rw [← List.length_eq_zero_iff, ← e2, h]; rfl
+    simp [h, h1, h2]
+  · have h1 : both (fun t => t.2.1) l ≠ [] := by
+      intro h'; apply h; rw [← List.length_eq_zero_iff, e1, h']; rfl
+    have h2 : both (fun t => t.2.2) l ≠ [] := by
+      intro h'; apply h; rw [← List.length_eq_zero_iff, e2, h']; rfl
+    simp only [h, h1, h2, if_false, add_fin]
+    congr 1
+    rw [both_oadd_sum l hm, ← e1, ← e2]
+    ring
+
+/-- the hypothesis is satisfiable non-trivially: NaN weights in the same place, a NaN score elsewhere -/
+example : ∀ t ∈ ([(some 2, some 1, some 3), (some 7, none, none), (none, some 5, some 5), (some 4, some 2, some 0)] : List CaseN),
+    t.2.1.isSome = t.2.2.isSome := by decide
+
+example : nanmean (weightedF (fun t => Fl.add (ofOpt t.2.1) (ofOpt t.2.2))
+    [(some 2, some 1, some 3), (some 7, none, none), (none, some 5, some 5), (some 4, some 2, some 0)]) = fin 8 := by
+  decide +kernel
+
+/-- NEGATIVE: without the common NaN mask additivity FAILS.  Scores 2, 4; w₁ = (1, 1), w₂ = (NaN, 1):
+    w₁+w₂ = (NaN, 2) gives 8, but w₁ gives 3 and w₂ gives 4. -/
+theorem nanmean_add_nan_weights_needs_mask :
+    ∃ l : List CaseN,
+      nanmean (weightedF (fun t => Fl.add (ofOpt t.2.1) (ofOpt t.2.2)) l) ≠
+        Fl.add (nanmean (weightedF (fun t => ofOpt t.2.1) l)) (nanmean (weightedF (fun t => ofOpt t.2.2) l)) :=
+  ⟨[(some 2, some 1, none), (some 4, some 1, some 1)], by decide +kernel⟩
+
+/-- homogeneity with NaN weights: a constant factor c on the weights scales the aggregate by c (no hypothesis:
+    c·w has the NaN mask of w) -/
+theorem nanmean_smul_nan_weights (c : Rat) (l : List CaseN) :
+    nanmean (weightedF (fun t => Fl.mul (fin c) (ofOpt t.2.1)) l) =
+      Fl.mul (fin c) (nanmean (weightedF (fun t => ofOpt t.2.1) l)) := by
+  simp only [smul_ofOpt, nanmean_nan_weights]
+  have e := both_smul_length c l
+  by_cases h : both (fun t => t.2.1) l = []
+  · have h1 : both (fun t => t.2.1.map (c * ·)) l = [] := by
+      rw [← List.length_eq_zero_iff, e, h]; rfl
+    simp [h, h1]
+  · have h1 : both (fun t => t.2.1.map (c * ·)) l ≠ [] := by
+      intro h'; apply h; rw [← List.length_eq_zero_iff, ← e, h']; rfl
+    simp only [h, h1, if_false, mul_fin]
+    congr 1
+    rw [both_smul_sum, e]
+    ring
+
+/-- finite weights are the special case: `weighted` of the first part is `weightedF` with `fin` weights -/
+theorem weighted_eq_weightedF (g : Case3 → Rat) (l : List Case3) :
+    weighted g l = weightedF (fun t => ofOpt t.2.1) (l.map fun t => (t.1, some (g t), none)) := by
+  simp [weighted, weightedF, List.map_map, Function.comp_def]
+
+end NanWeights
 
 end SV.Props.C03
